@@ -5,6 +5,8 @@ from hypothesis import strategies as st
 
 from . import _common as C
 from .. import bootstrap, gen, oracles
+from redress import ErrorClass
+
 from ..harness import Env, g, run_case
 from ..runner import Property, Stream, Verdict
 
@@ -40,13 +42,28 @@ def settle_check(case: dict, env: Env, out: list, site: str, what: str) -> None:
     bootstrap.set_clock(env.clock)
     try:
         env.clock.t += g(spec.get("recovery", 64 * 30))
-        d = env.breaker._real.allow()
+        real = env.breaker._real
+        d = real.allow()
         state = d.state.value
         admitted = d.allowed
+        again = True
+        state2 = None
+        if admitted:
+            # a second full cycle on the same breaker: that call succeeds, the breaker is tripped again by
+            # `threshold` counted failures, recovery_timeout_s passes with no call outstanding -> admitted
+            real.record_success()
+            for _ in range(spec["threshold"]):
+                real.record_failure(ErrorClass.TRANSIENT)
+            env.clock.t += g(spec.get("recovery", 64 * 30))
+            d2 = real.allow()
+            again, state2 = d2.allowed, d2.state.value
+            real.record_cancel()
     finally:
         bootstrap.set_clock(None)
     if not admitted:
         out.append((f"C08:probe-slot-leaked:{site}", f"{what}: after the call ended and recovery_timeout_s elapsed the next call is rejected (breaker {state}); records made: {[r[1] for r in records]}"))
+    elif not again:
+        out.append((f"C08:probe-slot-leaked-next-cycle:{site}", f"{what}: the call ended, a later call succeeded, the breaker was tripped again and recovery_timeout_s elapsed with no call outstanding, yet the next call is rejected (breaker {state2})"))
     elif not records:
         out.append((f"C08:not-settled:{site}", f"{what}: the admitted call ended without telling the breaker anything"))
 
